@@ -4,6 +4,7 @@ import (
 	"go/constant"
 	"go/token"
 	"go/types"
+	"regexp"
 	"sort"
 	"strings"
 
@@ -33,10 +34,10 @@ func rulesC20(c *Ctx) {
 	}
 	// builtin delete / clear and heap method calls on the fields
 	heapUsers := map[string][]string{
-		"minHeap": {S + "insert", S + "remove", S + "replace", S + "trim", S + "clear"},
-		"maxHeap": {S + "insert", S + "remove", S + "replace", S + "scheduleOne", S + "restoreMaxHeap", S + "clear"},
-		"txs":     {S + "insert", S + "remove", S + "replace", S + "clear"},
-		"senders": {S + "add", S + "remove", S + "clear"},
+		"minHeap":   {S + "insert", S + "remove", S + "replace", S + "trim", S + "clear"},
+		"maxHeap":   {S + "insert", S + "remove", S + "replace", S + "scheduleOne", S + "restoreMaxHeap", S + "forward", S + "clear"},
+		"txs":       {S + "insert", S + "remove", S + "replace", S + "clear"},
+		"senders":   {S + "add", S + "remove", S + "clear"},
 		"scheduled": {S + "scheduleOne", S + "reset"},
 	}
 	nMut := 0
@@ -134,6 +135,171 @@ func rulesC20(c *Ctx) {
 			op := union("maxHeap op", CallsTo(fn, "", pkTxpool+".(*maxPriorityTxHeap).remove", ""), CallsTo(fn, "", pkTxpool+".(*maxPriorityTxHeap).replace", ""))
 			op.Name, op.Fn = "maxHeap.remove/replace", fn
 			c.DominatedByCond("C20.sibling", fn, "isPendingSchedule(old)", `^runtime/txpool\.isPendingSchedule\(param:(tx|old)\)$`, op, "a transaction is taken out of the max heap only if it is in it (index -1 otherwise)")
+		}
+	}
+
+	// (b') readiness: whoever moves a sender's current sequence re-evaluates which of its transactions is schedulable
+	seqWriters := []string{pkTxpool + ".newSenderTxHeap", S + "forward"}
+	c.WhoMayStore(ix, "C20.ready", pkTxpool+".senderTxHeap.seq", seqWriters, "the sender's current sequence decides which transaction is ready; only forward moves it")
+	for _, s := range ix.FieldStores[pkTxpool+".senderTxHeap.seq"] {
+		fn := s.Fn
+		if fname(fn) == pkTxpool+".newSenderTxHeap" {
+			continue
+		}
+		c.Analysed[fname(fn)] = true
+		cut := NewCut()
+		cut.AddInstr(CallsTo(fn, "isSchedulable", S+"isSchedulable", "").Ins...)
+		cut.AddEdges(HeldEdges(fn, `^!runtime/txpool\.\(\*senderTxHeap\)\.peek\(.*\)#1$`)...)
+		cut.AddEdges(HeldEdges(fn, `^runtime/txpool\.isPendingSchedule\(runtime/txpool\.\(\*senderTxHeap\)\.peek\(.*\)#0\)$`)...)
+		hit := Reach(fn, s.In, nil, func(i ssa.Instruction) bool { _, r := i.(*ssa.Return); return r }, cut)
+		site := c.P.InstrPos(s.In)
+		if hit != nil {
+			site = c.P.InstrPos(hit)
+		}
+		c.Check(hit == nil, "C20.ready", fname(fn)+":seq moved⇒head re-evaluated", site, "after moving the sender's sequence every return passes the schedulability re-evaluation of the sender's head (or finds the queue empty / the head already pending)", "after the sender's current sequence is moved the function can return without re-evaluating whether the sender's new first transaction is schedulable: it stays out of the max heap and is never scheduled (F7)")
+		push := CallsTo(fn, "maxHeap.push", pkTxpool+".(*maxPriorityTxHeap).push", "")
+		c.DominatedByCond("C20.ready", fn, "isSchedulable(head)", `^runtime/txpool\.\(\*mainQueueScheduler\)\.isSchedulable\(param:s,runtime/txpool\.\(\*senderTxHeap\)\.peek\(`, push, "only a schedulable head enters the max heap")
+		c.DominatedByCond("C20.ready", fn, "!isPendingSchedule(head)", `^!runtime/txpool\.isPendingSchedule\(runtime/txpool\.\(\*senderTxHeap\)\.peek\(`, push, "a transaction already in the max heap is not pushed twice")
+	}
+
+	// (b2) in restoreMaxHeap the head put back into the max heap is the sender's current-sequence transaction
+	if fn := c.needFn("C20.ready", S+"restoreMaxHeap"); fn != nil {
+		eqRe := regexp.MustCompile(`^\*runtime/txpool\.\(\*senderTxHeap\)\.peek\(.*\)#0\.seq == \*\*param:s\.senders\[param:sender\]#0\.seq$`)
+		n := 0
+		for _, call := range callsIn(fn) {
+			nm := calleeName(call)
+			if nm != pkTxpool+".(*maxPriorityTxHeap).push" && nm != pkTxpool+".(*maxPriorityTxHeap).replace" {
+				continue
+			}
+			v := allArgs(call)[1] // the element entering the heap
+			n++
+			ok := false
+			why := ""
+			held := func(at ssa.Instruction) bool {
+				for _, h := range heldCondVals(at) {
+					if matchEither(eqRe, normCond(h.Cond, h.Pol)) {
+						return true
+					}
+				}
+				return false
+			}
+			if phi, isPhi := v.(*ssa.Phi); isPhi {
+				ok = true
+				for i, e := range phi.Edges {
+					if isNilConst(e) {
+						continue
+					}
+					pred := phi.Block().Preds[i]
+					onEdge := false
+					if iff := lastIf(pred); iff != nil {
+						// the condition holding on the edge pred→phi block itself
+						for si, sb := range pred.Succs {
+							if sb == phi.Block() && matchEither(eqRe, normCond(iff.Cond, si == 0)) {
+								onEdge = true
+							}
+						}
+					}
+					if !onEdge && (len(pred.Instrs) == 0 || !held(pred.Instrs[len(pred.Instrs)-1])) {
+						ok = false
+						why = "the non-nil value " + vstrShort(e) + " reaches it from a block where `head.seq == seqHeap.seq` does not hold"
+					}
+					if !strings.Contains(vstr(e), "(*senderTxHeap).peek(") {
+						ok = false
+						why = "the value is not the sender heap's head"
+					}
+				}
+			} else {
+				ok = held(call) && strings.Contains(vstr(v), "(*senderTxHeap).peek(")
+				why = "not dominated by `head.seq == seqHeap.seq`"
+			}
+			c.Check(ok, "C20.ready", fname(fn)+":"+nm[len(pkTxpool)+1:]+"(head) only if head.seq == sender's current sequence", c.P.InstrPos(call), "the transaction restored into the max heap is the sender's head and only when its sequence equals the sender's current sequence", "a transaction can be restored into the max heap although it is not the sender's current-sequence transaction ("+why+"): it would be scheduled across a sequence gap")
+		}
+		c.Floor("C20.ready", n, 2, "max-heap insertions in restoreMaxHeap")
+	}
+
+	// (b3) heap discipline of the container/heap implementations
+	for _, ht := range []struct {
+		typ, idx, key string
+		desc          bool
+	}{
+		{"minPriorityTxHeap", "minHeapIndex", "priority", false},
+		{"maxPriorityTxHeap", "maxHeapIndex", "priority", true},
+		{"seqNumTxHeap", "seqHeapIndex", "seq", false},
+	} {
+		T := pkTxpool + "." + ht.typ
+		// comparator orientation
+		if fn := c.needFn("C20.heap", pkTxpool+".("+ht.typ+").Less"); fn != nil {
+			ok := false
+			for _, r := range Returns(fn) {
+				if bo, isB := r.Results[0].(*ssa.BinOp); isB {
+					x, y := vstr(bo.X), vstr(bo.Y)
+					xi := strings.Contains(x, "param:i") && strings.HasSuffix(x, "."+ht.key)
+					yj := strings.Contains(y, "param:j") && strings.HasSuffix(y, "."+ht.key)
+					xj := strings.Contains(x, "param:j") && strings.HasSuffix(x, "."+ht.key)
+					yi := strings.Contains(y, "param:i") && strings.HasSuffix(y, "."+ht.key)
+					less := (xi && yj && bo.Op == token.LSS) || (xj && yi && bo.Op == token.GTR)
+					greater := (xi && yj && bo.Op == token.GTR) || (xj && yi && bo.Op == token.LSS)
+					ok = (ht.desc && greater) || (!ht.desc && less)
+				}
+			}
+			dir := "ascending"
+			if ht.desc {
+				dir = "descending"
+			}
+			c.Check(ok, "C20.heap", T+".Less:"+dir+" "+ht.key, c.P.Pos(fn.Pos()), "Less orders by "+dir+" "+ht.key+" (strict)", "the comparator of "+ht.typ+" is not strict "+dir+" "+ht.key+": the heap root is no longer the element the scheduler relies on")
+		}
+		// Swap/Push/Pop keep the element's own index field
+		for _, m := range []struct{ name, recv string }{{"Swap", "(" + ht.typ + ")"}, {"Push", "(*" + ht.typ + ")"}, {"Pop", "(*" + ht.typ + ")"}} {
+			fn := c.needFn("C20.heap", pkTxpool+"."+m.recv+"."+m.name)
+			if fn == nil {
+				continue
+			}
+			var vals []string
+			for _, b := range fn.Blocks {
+				for _, in := range b.Instrs {
+					if st, isSt := in.(*ssa.Store); isSt {
+						if fa, isFa := st.Addr.(*ssa.FieldAddr); isFa && fieldName(fa.X.Type(), fa.Field) == ht.idx {
+							vals = append(vals, vstr(fa.X)+"←"+vstr(st.Val))
+						}
+					}
+				}
+			}
+			sort.Strings(vals)
+			got := strings.Join(vals, "; ")
+			ok := false
+			switch m.name {
+			case "Swap":
+				ok = len(vals) == 2 && strings.Contains(got, "param:h[param:i]←param:i") && strings.Contains(got, "param:h[param:j]←param:j")
+			case "Push":
+				ok = len(vals) == 1 && strings.Contains(got, "←builtin.len(*param:h)")
+			case "Pop":
+				ok = len(vals) == 1 && strings.HasSuffix(got, "←-1")
+			}
+			c.Check(ok, "C20.heap", T+"."+m.name+":maintains "+ht.idx, c.P.Pos(fn.Pos()), "index field writes: "+got, m.name+" of "+ht.typ+" does not maintain "+ht.idx+" (writes: "+got+"): remove/replace would address the wrong slot")
+		}
+		// direct slot writes outside Swap/Pop are followed by heap.Fix/Init on every path
+		for _, fn := range c.P.FuncsInPkg(pkTxpool) {
+			if fn.Signature.Recv() == nil || !strings.Contains(typeStr(fn.Signature.Recv().Type()), ht.typ) {
+				continue
+			}
+			if fn.Name() == "Swap" || fn.Name() == "Pop" || fn.Name() == "Push" {
+				continue
+			}
+			for _, b := range fn.Blocks {
+				for _, in := range b.Instrs {
+					st, isSt := in.(*ssa.Store)
+					if !isSt {
+						continue
+					}
+					if _, isIA := st.Addr.(*ssa.IndexAddr); !isIA {
+						continue
+					}
+					c.Analysed[fname(fn)] = true
+					fix := union("heap.Fix|Init", CallsTo(fn, "", "container/heap.Fix", ""), CallsTo(fn, "", "container/heap.Init", ""))
+					hit := Reach(fn, in, nil, func(i ssa.Instruction) bool { _, r := i.(*ssa.Return); return r }, NewCut().AddInstr(fix.Ins...))
+					c.Check(hit == nil, "C20.heap", fname(fn)+":slot write⇒heap.Fix", c.P.InstrPos(in), "the heap order is restored after the direct slot write on every path", "a heap slot is overwritten and the function can return without heap.Fix/heap.Init: the heap order (root = lowest/highest) is lost")
+				}
+			}
 		}
 	}
 
